@@ -156,6 +156,15 @@ def check(ctx):
     dc = mod.func("Delayed.__call__")
     ok = bool(find("func = delayed(apply, pure=pure)", dc)) and all(unparse(r.value).startswith("func(self, args, kwargs") for r in returns(dc))
     ctx.ob("DELEG.delayed-call", dc, "calling a Delayed = delayed(apply)(self, args, kwargs)", ok)
+    # ---------------- delayed(obj, nout=n): every way of building the Delayed hands the requested length on
+    dlf = ctx.model.module("dask/delayed.py").func("delayed")
+    built = [r for r in returns(dlf) if isinstance(r.value, ast.Call) and call_name(r.value) == "Delayed"]
+    ctx.count("delayed_constructions", len(built))
+    ctx.floor("delayed_constructions", 1)
+    for r in built:
+        a_ = r.value.args
+        ok = (len(a_) >= 3 and eqv(a_[2], "nout")) or (kwarg(r.value, "length") is not None and eqv(kwarg(r.value, "length"), "nout"))
+        ctx.ob("ARG.delayed.nout", r, f"{unparse(r.value)[:60]} passes nout as the length", ok, "" if ok else "the Delayed built from a container of Delayed values forgets its length: `x, y = delayed([a, b], nout=2)` raises 'unspecified length'")
 
 
 VARIANTS = [
